@@ -120,6 +120,7 @@ type Profile struct {
 	PForeignTaint float64 // foreign taints added/removed by other controllers
 	PNodeLoss   float64 // spot loss / node object deletion by others
 	PStray      float64 // default-group pods bound to other groups' nodes
+	PScenario   float64 // a hand-picked hard-to-reach situation instead of a free draw (see scenario())
 	PBigGroup   float64 // a group of 22-45 nodes (reap batches above 20)
 	PResize     float64 // allocatable of all nodes of a group changes (kubelet reservation rollout)
 	FaultBias   map[string]float64 // per-op multiplier of the fault probability
@@ -148,7 +149,7 @@ func profileFor(prop string) Profile {
 	case "C03":
 		p.PAuto, p.PCordon, p.PAsgEdit, p.PForceTaint = 0.35, 0.4, 0.4, 0.35
 	case "C04":
-		p.PMaxBelow, p.PAuto, p.PAsgEdit, p.PBigGroup, p.PFleet = 0.6, 0.15, 0.3, 0.2, 0.4
+		p.PMaxBelow, p.PAuto, p.PAsgEdit, p.PBigGroup, p.PFleet, p.PScenario = 0.6, 0.15, 0.3, 0.2, 0.4, 0.12
 		p.FaultBias = map[string]float64{OpAttach: 5}
 	case "C05", "C06":
 		p.EdgeBias, p.PDry, p.PGlobalDry, p.POdd, p.PResize, p.PNodeLoss, p.ShortCool = 0.5, 0.02, 0, 0.02, 0.2, 0.35, 0.8
@@ -240,7 +241,32 @@ func DrawConfig(ch *Choices, p Profile, tier string) *RunCfg {
 	for i := 0; i < ng; i++ {
 		rc.Groups = append(rc.Groups, drawGroup(ch, p, rc, order[i], order[i] == defaultAt))
 	}
+	if s.Chance(p.PScenario) {
+		scenario(p.Name, rc, s)
+	}
 	return rc
+}
+
+// scenario pins the first group to a situation that a free draw reaches too rarely.
+func scenario(prop string, rc *RunCfg, s *Stream) {
+	g := rc.Groups[0]
+	switch prop {
+	case "C04", "C17":
+		// fleet mode, room to grow by far more than 20 nodes, max_nodes well below the cloud maximum,
+		// attach calls that fail often: partially attached fleets next to the clamp
+		g.LaunchTemplateID, g.LaunchTemplateVersion, g.FleetTimeout = fmt.Sprintf("lt-%d", g.Idx), "1", "30500ms"
+		g.Dry, g.BigGroup = false, true
+		g.Min, g.Max = s.Intn(2), 40+s.Intn(10)
+		g.ASGMin, g.ASGMax = 0, int64(g.Max+30+s.Intn(40))
+		g.InitialNodes = 1 + s.Intn(4)
+		g.ScaleUp, g.Upper, g.Lower = 70, 45, 30
+		g.CoolDown = rc.ScanInterval
+		rc.Calm, rc.GlobalDry = false, false
+		rc.FaultP = 0.06
+		for _, f := range allFaultKinds {
+			rc.Faults[f] = f == FErrBefore || f == FErrAfter
+		}
+	}
 }
 
 var allFaultKinds = []string{FErrBefore, FErrAfter, FConflict, FNotFound, FThrottle, FLatency, FStale, FFewer, FErrorsOnly, FErrorsPlus, FNeverReady, FMalformed, FListErr}
